@@ -285,7 +285,8 @@ OutMsgs(T, tp) ==
 \* ------------------------------------------------------------------ encoding
 \* The same layouts in the other direction: the cell tree of a message from a description of its fields.  MsgHash_Gen uses
 \* it to hand the implementation source cells that were laid out here, not by the implementation's own encoder.
-\* A tree node is [b |-> bits, c |-> <<child nodes>>]; addresses are the records AddrAt returns.
+\* A tree node is [b |-> bits, c |-> <<child nodes>>] (ordinary cell) or the same with x |-> cell type; addresses are the
+\* records AddrAt returns.
 EncAddr(a) == CASE a.kind = "none"   -> <<0, 0>>
                 [] a.kind = "extern" -> <<0, 1>> \o BitsM!UBits(ToString(Len(a.ext)), 9) \o a.ext
                 [] OTHER             -> DestBits(a, TRUE)
@@ -310,7 +311,31 @@ Flat(n) ==
   LET subs == [i \in 1..Len(n.c) |-> Flat(n.c[i])]
       off  == FoldLeft(LAMBDA acc, t : Append(acc, acc[Len(acc)] + Len(t)), <<1>>, subs)      \* off[i]: cells before subs[i]
   IN FoldLeft(LAMBDA acc, i : acc \o ShiftRefs(subs[i], off[i]),
-              <<[b |-> n.b, x |-> Ordinary, m |-> 0, r |-> [i \in 1..Len(subs) |-> off[i] + 1]]>>,
+              <<[b |-> n.b, x |-> IF "x" \in DOMAIN n THEN n.x ELSE Ordinary, m |-> 0, r |-> [i \in 1..Len(subs) |-> off[i] + 1]]>>,
               [i \in 1..Len(subs) |-> i])
 TableJson(T) == [i \in 1..Len(T) |-> [b |-> BitsToStr(T[i].b), x |-> T[i].x, r |-> [j \in 1..Len(T[i].r) |-> T[i].r[j] - 1]]]
+
+\* -------------------------------------------------------------- exotic subtrees
+\* Messages may carry exotic cells anywhere below them (a body that holds a Merkle proof, a library cell as code, ...).
+\* The nodes below build them from the cell definitions (Cells.tla): data of a pruned branch = 01 mask hash depth of the cell
+\* it stands for, of a Merkle proof = 03 hash depth of its child at level 0, of a Merkle update = 04 both hashes, both depths.
+NodeInfo(n) == InfoTable(WithMasks(Flat(n)))[1]
+LibraryNode(hash256) == [b |-> <<0, 0, 0, 0, 0, 0, 1, 0>> \o hash256, c |-> <<>>, x |-> Library]
+\* the pruned branch (level mask 1) that stands for the level-0 tree n
+PrunedNode(n) == LET i == NodeInfo(n) IN [b |-> BytesToBits(<<1, 1>> \o i.h[1] \o U16(i.d[1])), c |-> <<>>, x |-> Pruned]
+\* Merkle proof over the (partly pruned) tree v
+ProofNode(v)  == LET i == NodeInfo(v) IN [b |-> BytesToBits(<<3>> \o i.h[1] \o U16(i.d[1])), c |-> <<v>>, x |-> MerkleProof]
+UpdateNode(v, w) == LET i == NodeInfo(v)  j == NodeInfo(w) IN
+                    [b |-> BytesToBits(<<4>> \o i.h[1] \o j.h[1] \o U16(i.d[1]) \o U16(j.d[1])), c |-> <<v, w>>, x |-> MerkleUpdate]
+
+\* A minimal transaction around an incoming message (block.tlb):
+\*   transaction$0111 account_addr lt prev_trans_hash prev_trans_lt now outmsg_cnt:uint15 = 0 orig_status end_status (active$10)
+\*     ^[ in_msg:(just ^msg) out_msgs:hme_empty$0 ]  total_fees:(Grams 0, no extra currencies)
+\*     state_update:^(update_hashes#72 old_hash new_hash)
+\*     description:^(trans_storage$0001 storage_ph:(tr_phase_storage$_ storage_fees_collected:Grams=0 storage_fees_due:nothing$0 acst_unchanged$0))
+TxNode(acc256, lt64, h256, now32, msg) ==
+  [b |-> <<0, 1, 1, 1>> \o acc256 \o lt64 \o h256 \o lt64 \o now32 \o [i \in 1..15 |-> 0] \o <<1, 0>> \o <<1, 0>> \o <<0, 0, 0, 0>> \o <<0>>,
+   c |-> << [b |-> <<1, 0>>, c |-> <<msg>>],
+            [b |-> <<0, 1, 1, 1, 0, 0, 1, 0>> \o h256 \o acc256, c |-> <<>>],
+            [b |-> <<0, 0, 0, 1>> \o <<0, 0, 0, 0>> \o <<0>> \o <<0>>, c |-> <<>>] >>]
 =============================================================================
